@@ -13,6 +13,8 @@ EPS_REL = 1e-6
 
 def near(value, threshold, eps=EPS_REL):
     """True when a strict comparison of value against threshold is too close to call."""
+    if math.isinf(threshold) or math.isinf(value):
+        return False
     return abs(value - threshold) <= eps * max(1.0, abs(threshold))
 
 
